@@ -573,6 +573,8 @@ class C04(Property):
         "Flatland.C04.Proofs.C04_total_fails",
         "Flatland.C04.Proofs.reset_text_partial",
         "Flatland.C04.Proofs.norm_idem",
+        "Flatland.C04.Proofs.reset_text_all_partial",
+        "Flatland.C04.Proofs.norm_idem_all",
         "Flatland.C04.Proofs.reset_value_partial",
         "Flatland.C04.Proofs.C04_reset_u_fails",
         "Flatland.C04.Proofs.C04_reset_value_fails",
@@ -586,7 +588,8 @@ class C04(Property):
     level_note = ("set_coherent (flag/value/u/signal) and signals_spec are full for every kind incl. opaque Float/Decimal; set_total is partial "
                   "(NoHuge; refuted in full by KF-C04-a); reset_text / reset_value / norm_idem cover String, Integer/Long (any width), Boolean, "
                   "Date, Time, DateTime and Enum/Constrained over them, partial in Coherent / CoherentNone / ExactInput (refuted in full by "
-                  "KF-C04-c / KF-C04-b); for Float and Decimal 'never raises' and 'u stable under re-set' are checked by correspondence only")
+                  "KF-C04-c / KF-C04-b); for Float and Decimal 'never raises' is by correspondence, and 'u stable under re-set' is the theorem reset_text_all_partial whose "
+                  "hypothesis OpaqueStable (the recorded float()/Decimal() results are text-stable) is evaluated by the model on every case")
     technique = "Lean 4 theorems about a hand-written model + regenerated Unicode/limit tables + differential correspondence + Python oracle"
     trusted_base = [
         "CPython str.strip, int(str), '%i'/'%0Ni', str(obj), re (three Temporal regexes), datetime.date/time validity are re-implemented "
@@ -730,7 +733,9 @@ class C04(Property):
         if first["exc"] is None and first["flag"]:
             el2 = cls()
             reset, _ = scalar_obs(el2, el.u)
-        return {"set": first, "reset": reset}
+        # `opaque_stable`: the hypothesis OpaqueStable of reset_text_all_partial, evaluated by the model on
+        # the float()/Decimal() results recorded for this case; it has to hold
+        return {"set": first, "reset": reset, "opaque_stable": True}
 
     def compare(self, impl_obs, model_obs):
         # private keys inside nested observations are not compared
